@@ -213,6 +213,10 @@ func verifRespell(s string, form int) string {
 		return strings.ReplaceAll(s, " ", "　")
 	case 5:
 		return width.Widen.String(s)
+	case 6:
+		return strings.ReplaceAll(s, " ", "\u00a0")
+	case 7:
+		return strings.Replace(strings.Replace(s, "a", "\u00aa", 1), "o", "\u00ba", 1)
 	}
 	return s
 }
@@ -899,6 +903,47 @@ func H_C13_entropy(lg Language, L int, W int) {
 	got2, _ := NewMnemonicByEntropy(ent2, lg)
 	verifAssert(got == specSentence(lg, keep), "earlier-result-unaltered")
 	verifAssert(got2 == specSentence(lg, ent2), "second-result")
+	// the caller reuses its buffer: overwrite it in place and call again
+	copy(ent, ent2)
+	got3, _ := NewMnemonicByEntropy(ent, lg)
+	verifAssert(got3 == specSentence(lg, ent2), "result-after-caller-reuses-buffer")
+	verifReach("end")
+}
+
+// two validations in sequence: the second verdict must be the reference verdict whatever the
+// first call did (early error returns included)
+func H_C13_seq(lg Language, n1 int, n2 int) {
+	t1 := make([]string, n1)
+	for i := range t1 {
+		t1[i] = verifToken("a"+itoa(i), lg)
+	}
+	t2 := make([]string, n2)
+	for i := range t2 {
+		t2[i] = verifGolden(lg, verifIntRange("b"+itoa(i), 0, 2047))
+	}
+	r1 := verifPre("r1", strings.Join(t1, " "))
+	r2 := verifPre("r2", strings.Join(t2, " "))
+	_ = CheckMnemonic(r1, lg)
+	e2 := CheckMnemonic(r2, lg)
+	_, valid := specWellFormed(lg, t2)
+	verifAssert((e2 == nil) == valid, "second-verdict-is-history-free-spec-value")
+	ok3 := IsMnemonicValid(r2, lg)
+	verifAssert(ok3 == valid, "third-verdict-is-history-free-spec-value")
+	verifReach("end")
+}
+
+// a generated sentence validated after an arbitrary earlier validation
+func H_C13_seq_gen(lg Language, n1 int, L int) {
+	t1 := make([]string, n1)
+	for i := range t1 {
+		t1[i] = verifToken("a"+itoa(i), lg)
+	}
+	_ = CheckMnemonic(verifPre("r1", strings.Join(t1, " ")), lg)
+	ent := verifBytes("ent", L)
+	m, err := NewMnemonicByEntropy(ent, lg)
+	verifAssume(err == nil)
+	verifAssert(m == specSentence(lg, ent), "encode-after-validation-is-spec-value")
+	verifAssert(CheckMnemonic(m, lg) == nil, "generated-accepted-after-earlier-validation")
 	verifReach("end")
 }
 
@@ -1157,6 +1202,8 @@ var verifHarnesses = map[string]func(a []int64){
 	"H_C13_entropy":     func(a []int64) { H_C13_entropy(Language(a[0]), int(a[1]), int(a[2])) },
 	"H_C13_check":       func(a []int64) { H_C13_check(Language(a[0]), int(a[1]), int(a[2])) },
 	"H_C13_seed":        func(a []int64) { H_C13_seed() },
+	"H_C13_seq":         func(a []int64) { H_C13_seq(Language(a[0]), int(a[1]), int(a[2])) },
+	"H_C13_seq_gen":     func(a []int64) { H_C13_seq_gen(Language(a[0]), int(a[1]), int(a[2])) },
 	"H_C12_pair":        func(a []int64) { H_C12_pair(int(a[0]), Language(a[1]), int(a[2]), Language(a[3]), int(a[4])) },
 	"H_C12_race":        func(a []int64) { H_C12_race(int(a[0]), Language(a[1]), int(a[2]), Language(a[3]), int(a[4])) },
 }
